@@ -1,6 +1,8 @@
 """Attribute and subscript semantics of the abstract interpreter."""
 from __future__ import annotations
 
+import ast
+
 from .rt import *
 from .rt import _Return, _Break, _Continue
 from .values import *
@@ -52,6 +54,8 @@ class AccessMixin:
         return "'%s' object" % self.kind_of(obj)
 
     def get_attr(self, obj, name, node, frame):
+        if name == "__dict__" and isinstance(obj, (EnumVal, ClassVal, Instance)):
+            return self.bi_vars([obj], {}, node, frame)          # the namespace vars() shows
         if isinstance(obj, ModuleVal):
             if obj.state == "new":
                 self.load_module(obj.name)
@@ -167,6 +171,18 @@ class AccessMixin:
                 return m
             return SymAny(obj.path + ("." + name,))
         if isinstance(obj, BoundMethod) or isinstance(obj, FuncVal):
+            fobj = obj.func if isinstance(obj, BoundMethod) else obj
+            extra = getattr(fobj, "fattrs", None)
+            if extra and name in extra:
+                return extra[name]                       # functions take arbitrary attributes
+            if name in ("__doc__",):
+                return ast.get_docstring(fobj.node) if isinstance(getattr(fobj, "node", None), (ast.FunctionDef, ast.AsyncFunctionDef)) else None
+            if name in ("__qualname__",):
+                return fobj.name
+            if name in ("__module__",):
+                return fobj.module.name if getattr(fobj, "module", None) is not None else None
+            if name in ("__wrapped__", "__dict__", "__annotations__", "__defaults__", "__kwdefaults__", "__code__", "__closure__", "__globals__"):
+                raise AnalysisError("unmodelled-builtin", "function.%s used at %s" % (name, frame.where(node)))
             if name == "__name__":
                 return (obj.func if isinstance(obj, BoundMethod) else obj).name
             if name == "__func__" and isinstance(obj, BoundMethod):
@@ -186,9 +202,41 @@ class AccessMixin:
                 return cls.attrs
             if name == "__mro__":
                 return tuple(cls.mro())
+            if name == "mro":
+                return Builtin("%s.mro" % cls.name, lambda a, k, n, f: list(cls.mro()))
+            if name == "__bases__":
+                return tuple(cls.bases) if cls.bases else (self.bclasses["object"],)
+            if name == "__qualname__":
+                return cls.name
+            if name == "__module__":
+                return cls.module.name if cls.module is not None else "builtins"
+            if cls.builtin and cls.name == "type" and name == "__new__":
+                I0 = self
+
+                def explicit_type_new(a, k, n, f):
+                    # type.__new__(mcs, name, bases, namespace) called by name from a metaclass: a new class object whose
+                    # namespace is a copy of the mapping
+                    if len(a) == 4 and isinstance(a[3], dict) and isinstance(a[1], str):
+                        bs = [b for b in (I0.iterate(a[2], n, f) or []) if isinstance(b, ClassVal)]
+                        c = ClassVal(a[1], f.module if f is not None and hasattr(f, "module") else None, bs,
+                                     metaclass=a[0] if isinstance(a[0], ClassVal) else None)
+                        c.attrs = dict(a[3])
+                        c.made_by_type_new = True
+                        return c
+                    raise AnalysisError("unmodelled-builtin", "type.__new__ with these arguments at %s" % f.where(n))
+                return Builtin("type.__new__", explicit_type_new)
             if cls.builtin or any(c.builtin for c in cls.mro()):
                 if name in ("__init__", "__new__", "mro", "__doc__", "__module__", "__qualname__", "__subclasses__"):
                     return Builtin("%s.%s" % (cls.name, name), lambda a, k, n, f: None)
+                if cls.name == "dict" and name == "fromkeys":
+                    I1 = self
+
+                    def fromkeys(a, k, n, f):
+                        keys = I1.iterate(a[0], n, f)
+                        if keys is None:
+                            raise AnalysisError("unmodelled-builtin", "dict.fromkeys over a dynamic iterable at %s" % f.where(n))
+                        return {I1.hash_check(x, n, f): (a[1] if len(a) > 1 else None) for x in keys}
+                    return Builtin("dict.fromkeys", fromkeys)
                 if cls.name == "int" and name == "from_bytes":
                     I = self
 
@@ -251,6 +299,11 @@ class AccessMixin:
                 self.event("static-mutation", obj=obj, origin=self.static_ids[id(obj)], where=frame.where(node))
             obj.members[name] = v
             return
+        if isinstance(obj, FuncVal):
+            if getattr(obj, "fattrs", None) is None:
+                obj.fattrs = {}
+            obj.fattrs[name] = v
+            return
         if isinstance(obj, (External, Unknown, SymAny)):
             self.event("external-attr-store", obj=obj, name=name, value=v, where=frame.where(node), node=node)
             if isinstance(obj, External):
@@ -265,6 +318,21 @@ class AccessMixin:
     # ------------------------------------------------------------------
     # subscripts
     # ------------------------------------------------------------------
+    SMALL_TABLE = 8
+
+    def small_table_lookup(self, table, key, node, frame):
+        """a dictionary with a handful of integer keys subscripted by a symbolic integer is a dispatch table: one case per key
+        (key == k, recorded as a path fact like the if/elif chain it replaces) and the case of no match.
+        Returns (found, value) or None when the table is not of that kind."""
+        if not (0 < len(table) <= self.SMALL_TABLE) or "**" in table:
+            return None
+        if not all(isinstance(k, int) and not isinstance(k, bool) for k in table):
+            return None
+        for k in table:
+            if self.compare(ast.Eq(), key, k, node, frame):
+                return (True, table[k])
+        return (False, None)
+
     def key_error(self, key, node, frame, obj=None):
         self.event("key-error", key=key, where=frame.where(node), node=node, obj=obj)
         raise PyRaise(Instance(self.bclasses["KeyError"], (key,)), node, frame.where(node))
@@ -289,6 +357,12 @@ class AccessMixin:
         if isinstance(obj, External):
             return External(obj.name + "[]")
         if isinstance(obj, dict):
+            if isinstance(key, Sym):
+                hit = self.small_table_lookup(obj, key, node, frame)
+                if hit is not None:
+                    if hit[0]:
+                        return hit[1]
+                    return self.key_error(key, node, frame, obj)
             if isinstance(key, (Sym, SymAny, SymStr, Unknown)):
                 guarded = any(t & {"*", "KeyError", "LookupError", "Exception", "BaseException"} for t in self.try_stack)
                 self.event("dynamic-dict-lookup", obj=obj, key=key, where=frame.where(node), node=node,
@@ -408,15 +482,16 @@ class AccessMixin:
             return Sym(bits=[frozenset([("p", ("cell", id(b), key), j)]) for j in range(8)])
         return Unknown("dynamic index into buffer")
 
-    def cursor_split(self, x):
-        """x = cursor + rest for one loop cursor (an integer variable a summarised loop advances): (cursor name, rest)"""
+    def cursor_split(self, x, registered=True):
+        """x = cursor + rest for one loop cursor (an integer variable a summarised loop advances): (cursor name, rest).
+        registered=False: after the path has ended (the registry of live cursors is gone): any loop variable symbol"""
         x = norm_int(x)
-        if not isinstance(x, Sym) or x.poly is None or not self.cursors:
+        if not isinstance(x, Sym) or x.poly is None or (registered and not self.cursors):
             return None
         found = None
         for m, c in x.poly.items():
             for name in m:
-                if isinstance(name, tuple) and name and name[0] == "loopvar" and name in self.cursors:
+                if isinstance(name, tuple) and name and name[0] == "loopvar" and (name in self.cursors or not registered):
                     if len(m) != 1 or c != 1 or (found is not None and found != name):
                         return None
                     found = name
@@ -456,6 +531,17 @@ class AccessMixin:
                 if key.stop is None or (ch is not None and ch[0] == cs[0]):
                     W = self.cursor_view(v, cs[0])
                     return self.view_get(W, slice(cs[1], ch[1] if ch is not None else None), node, frame)
+                stop = norm_int(key.stop)
+                if ch is None and isinstance(stop, (int, Sym)) and not isinstance(stop, bool):
+                    # V[cursor + a : E] with E a position in V that does not move with the cursor: the rest of the window
+                    W = self.cursor_view(v, cs[0])
+                    nv = self.view_get(W, slice(cs[1], None), node, frame)
+                    if isinstance(nv, View):
+                        nv.end = (v.lo, stop)
+                        nv.hi = pos_add(v.lo, stop) if isinstance(stop, int) else (("dyn", v.lo, self.sym_name(stop)), 0)
+                        nv.hi_val = stop
+                        nv.length = None
+                    return nv
         elif not isinstance(key, slice):
             cs = self.cursor_split(key)
             if cs is not None and cs[0][1] in self.loop_stack and isinstance(cs[1], int):
